@@ -222,7 +222,35 @@ def run(E: Engine, rep: Report, tier: str) -> dict:
     small_tol = isinstance(tol_def, ast.Constant) and isinstance(tol_def.value, float) and tol_def.value <= 0.5e-3
     rep.check(closest or small_tol, "TABLE", "SimulationResults._get_index_from_time|closest-stored-time", "index of the closest stored time (argmin), or default tolerance <= half a grid step",
               f"_get_index_from_time returns `{sh(r_git, 100)}` with default tolerance {ast.unparse(tol_def) if tol_def is not None else '?'} us = one full step of the 1 ns grid: the first stored time within a whole step can be the previous grid point, so a stored time is answered with its neighbour's state", E.where(git_))
-    rep.floor("TABLE", 27)
+    # ---- round 5 (independent audit) ----
+    # (a) the bad-atom mask of a run is read off the drawn bitstring character by character (`== "1"`): a str -> bool cast
+    #     (`np.array(list(s)).astype(bool)`) is True for every non-empty string, i.e. every atom badly prepared
+    nz5 = E.fn("pulser_simulation.simulation.QutipEmulator._noisy_runs")
+    bad_st = [l for l in S(E, nz5, inline=False).logged("store") if l.target is not None and l.target[0] == "attr" and l.target[2] == "_bad_atoms"]
+    if not bad_st:
+        raise AnalysisError("anchor: QutipEmulator._noisy_runs no longer sets _hamiltonian._bad_atoms")
+    for l in bad_st:
+        cast_ = any(t[0] == "call" and t[1][0] == "attr" and t[1][2] == "astype" and t[2] and t[2][0] == ("name", "bool") and any(u[0] == "call" and u[1] == ("name", "list") for u in sym.subterms(t[1][1])) for t in sym.subterms(l.value))
+        rep.check(not cast_, "TABLE", "QutipEmulator._noisy_runs|bad-atoms-from-bit-characters", "mask = (characters == '1')", f"the bad-atom mask is `{sh(l.value, 100)}`: casting the characters '0'/'1' to bool gives True for both (a non-empty string is truthy), so with a state-preparation error every atom is switched off in every run", E.where(nz5, l.node))
+    # (b) the configuration the V2 observables read their detection-error rates from holds the noise model that is
+    #     emulated (the device's default one when prefer_device_noise_model is set)
+    v2i5 = E.fn("pulser_simulation.qutip_backend.QutipBackendV2.__init__")
+    S5 = S(E, v2i5, inline=False)
+    prefers = any(mentions(l.cond, "prefer_device_noise_model") or (l.value is not None and mentions(l.value, "prefer_device_noise_model")) for l in S5.log)
+    cfg_store = [l for l in S5.logged("store") if l.target == ("attr", ("name", "self"), "_config") and l.value is not None and mentions(l.value, "noise_model")]
+    rep.check((not prefers) or any(mentions(l.value, "default_noise_model") or mentions(l.cond, "noise_model") for l in cfg_store), "TABLE", "QutipBackendV2.__init__|config-holds-the-emulated-noise-model", "self._config is rebuilt with the emulated noise model when it differs from the user's", "with prefer_device_noise_model the device's default noise model goes to the emulator only: self._config.noise_model stays the user's, and BitStrings takes p_false_pos / p_false_neg from it, so the detection errors of the emulated model are dropped (the legacy backend applies them)", E.where(v2i5))
+    # (c) the initial state's own eigenstate order is honoured: V2 hands `initial_state.to_qobj()` to the emulator, whose
+    #     basis order is Hamiltonian.eigenbasis -- a state given with eigenstates ('g', 'r') must be permuted (or refused)
+    init_calls = [l for l in S5.calls("set_initial_state")]
+    uses_order = any(mentions(l.cond, "eigenstates") or any(mentions(a_, "eigenstates") or mentions(a_, "eigenbasis") for a_ in l.value[2]) for l in init_calls) or any(l.kind == "raise" and mentions(l.cond, "eigenstates") for l in S5.log)
+    rep.check(uses_order or not init_calls, "TABLE", "QutipBackendV2.__init__|initial-state-in-the-emulator's-eigenstate-order", "the initial state's eigenstates are compared with / permuted into the emulator's order", "QutipBackendV2 passes config.initial_state.to_qobj() straight to the emulator and drops the state's own `eigenstates` order: a state built with eigenstates ('g', 'r') and amplitudes {'gr': 1.0} is read in the emulator's ('r', 'g') order, so |g> becomes |r> (an all-zero drive 'changes' the state)", E.where(v2i5, init_calls[0].node if init_calls else None))
+    # (d) a result is stored under the relative time that was configured: the V2 run reads `evaluation_time` back from the
+    #     legacy results, i.e. r * T / 1000 converted back with / (T / 1000), which is not always r again
+    v2r5 = S(E, v2run, inline=False)
+    t_args = [dict(l.value[3]).get("t") for l in v2r5.log if l.kind == "call" and l.value[3] and dict(l.value[3]).get("t") is not None and dict(l.value[3]).get("result") is not None]
+    raw_t = [t_ for t_ in t_args if unobj(t_)[0] == "attr" and unobj(t_)[2] == "evaluation_time"]
+    rep.check(bool(t_args) and not raw_t, "TABLE", "QutipBackendV2.run|results-stored-at-configured-times", "t handed to the observables is a configured relative time", "QutipBackendV2.run stores every result under `qutip_res.evaluation_time`, the relative time converted to microseconds for the solver and back: r = 0.9 with T = 10 ns comes back as 0.8999999999999999, so Results.get_result('state', 0.9) raises although that time was configured", E.where(v2run))
+    rep.floor("TABLE", 31)
 
     # ---------------------------------------------------------------- SIB
     s1 = E.fn("pulser_simulation.simresults.CoherentResults.sample_state")
